@@ -472,8 +472,9 @@ class P(Prop):
         ct = rng.choice(["float", "float", "np.float64", "int"]) if cls == "enu" else "float"
         if ct == "int" and not all(float(v).is_integer() for t in tracks for q in t for v in q):
             ct = "float"
-        if ct == "int" and CLS_INTPOW not in self.listed and any(abs(v) > 100 for t in tracks for q in t for v in q):
-            ct = "float"     # altitudes as Python ints more than 127 apart + FDTW + dim 1 + p a small numpy integer: see classify()
+        zs = [q[2] for t in tracks for q in t]
+        if ct == "int" and CLS_INTPOW not in self.listed and max(zs) - min(zs) > 5:
+            ct = "float"     # altitudes as Python ints more than 5 apart (6**3 > 127) + FDTW + dim 1 + p a small numpy integer: see classify()
         steps, okres = [], []
         for k in range(rng.choice([1, 1, 2, 2, 3, 4])):
             f = "m" if rng.random() < 0.8 else "c"
@@ -820,8 +821,8 @@ class P(Prop):
             return "impl=%s model=%s" % (str(impl_out)[:300], str(model_out)[:300])
         for k, st in enumerate(case["steps"]):
             io, mo = impl_out["steps"][k], model_out["steps"][k]
-            if self.gated(st["f"], st["mode"], st["p"], st["pf"]) == CLS_LOWPREC:
-                continue     # d**p is computed in float16/float32 there: listed finding, the model works in float64
+            if self.gated(st["f"], st["mode"], st["p"], st["pf"]) == CLS_LOWPREC or self.intpow(case, st):
+                continue     # d**p is computed in float16/float32 (in int8 .. uint32) there: listed findings, the model works in float64
             if "err" in io or "err" in mo:
                 if io.get("err") != mo.get("err"):
                     return "call %d: impl=%s model=%s" % (k, str(io)[:200], str(mo)[:200])
@@ -1072,7 +1073,8 @@ class P(Prop):
         three, each a decidable predicate on the first failing call of a session:
         fdtw-int-distance-small-numpy-int-exponent: FDTW with dim = 1 on tracks whose altitudes are Python ints, p >= 1 a numpy
             integer of at most 32 bits: `_fdtw` hands the raw `abs(U1 - U2)` (a Python int) to `B**p`, numpy converts B to the
-            type of p and raises OverflowError when it does not fit (`_dtw` reads the distance back from a float64 array);
+            type of p and raises OverflowError when it does not fit, or wraps around silently when the power does not
+            (65536 ** uint32(2) = 0: a wrong score) (`_dtw` reads the distance back from a float64 array);
         p-numpy-type-name-without-int-or-float: p is a numpy scalar of type longlong / ulonglong / longdouble with a value other
             than 0 and infinity, and the call raised UnboundLocalError (`_p2weight` recognises numbers by the substrings
             'int' / 'float' of the type name);
@@ -1093,10 +1095,16 @@ class P(Prop):
             return cls
         if cls == CLS_LOWPREC and "err" not in o:
             return cls
-        if (case.get("ct") == "int" and st["mode"] == "fdtw" and st["dim"] == 1 and st["pf"] in SMALLINT_FORMS
-                and st["p"] not in ("0", "inf") and o.get("err") == "err:OverflowError"):
+        if self.intpow(case, st) and o.get("err") in (None, "err:OverflowError"):
             return CLS_INTPOW
         return None
+
+    @staticmethod
+    def intpow(case, st):
+        """FDTW, dim = 1, altitudes handed over as Python ints, p >= 1 a numpy integer of at most 32 bits: `_fdtw` computes
+        `B ** p` with B the Python int `abs(U1 - U2)`, in the integer type of p (OverflowError, or a silent wrap-around: 65536 ** uint32(2) = 0)"""
+        return (case.get("ct") == "int" and st["mode"] == "fdtw" and st["dim"] == 1 and st["pf"] in SMALLINT_FORMS
+                and st["p"] not in ("0", "inf"))
 
     # ---------------------------------------------------------------- shrinking / search
     def shrink_seq(self, case):
